@@ -262,6 +262,10 @@ class ParametricTransform:
             raise TypeError(
                 f"{type(self).__name__}.link() 'other' must be of the same type, got {type(other).__name__}"
             )
+        if self._parameters.get("params") is not None:
+            # Parameters container is shared with transformation of which this is a shallow copy
+            self._parameters = self._parameters.copy()
+            del self._parameters["params"]
         self.params = other
         if not hasattr(self, "p"):
             if other.params is None:
